@@ -8,6 +8,7 @@ Set Extraction Optimize.
 Extraction "model_cmp.ml"
   N.add N.mul N.sub N.div_eucl N.compare Z.add Z.mul Z.sub Z.div_eucl Z.compare Z.of_N Z.to_N Z.opp
   CmpModel.str_ops CmpModel.str_pair_oracle CmpModel.lex_cmp
+  CmpModel.cstr_ops CmpModel.cstr_pair_oracle CmpModel.item_ops CmpModel.item_pair_oracle
   CmpModel.v_ops CmpModel.val_pair_oracle CmpModel.v_norm CmpModel.v_nan
   CmpModel.sort_n CmpModel.sort_str CmpModel.sort_val CmpModel.sort_items CmpModel.live_items
   CmpModel.n_sort_oracle CmpModel.str_sort_oracle CmpModel.val_sort_oracle CmpModel.harray_sort_oracle.
